@@ -877,11 +877,289 @@ theorem interp_spec' (s : State P) (ts : Int) (dev : String) (maxI : Int) (l : L
     rw [refresh_cache_eq s l h hl, entry_refresh, refresh_data]
     exact interpCore_eq (entry s) (fun x => Dict.has x s.data) l ts dev maxI hl.1 (fun x hx => (hl.2 x).mp hx) he
 
-theorem interpSpec_ne_PLACEHOLDER : True := trivial
+theorem interpSpec_ne (a : Abs P) (l : List Int) (ts : Int) (dev : String) (maxI : Int) :
+    interpSpec a l ts dev maxI ≠ Out.keyError ∧ interpSpec a l ts dev maxI ≠ Out.indexError := by
+  unfold interpSpec
+  cases a.entry ts dev with
+  | some p => simp
+  | none =>
+    simp only []
+    generalize (List.filter (fun t => decide (t < ts) && (a.entry t dev).isSome) l).getLast? = A
+    generalize (List.filter (fun t => decide (t > ts) && (a.entry t dev).isSome) l).head? = B
+    cases A with
+    | none => simp
+    | some lo =>
+      cases B with
+      | none => simp
+      | some up =>
+        simp only []
+        split
+        · cases a.entry lo dev <;> cases a.entry up dev <;> simp
+        · simp
 
 theorem interp_total' (s : State P) (ts : Int) (dev : String) (maxI : Int) (h : Inv s) :
     (step s (Op.interp ts dev maxI)).2 ≠ Out.keyError ∧ (step s (Op.interp ts dev maxI)).2 ≠ Out.indexError := by
   rw [interp_spec' s ts dev maxI _ h (sortedKeys_isort s h)]
-  sorry
+  exact interpSpec_ne _ _ _ _ _
+
+-- timestamp_length ---------------------------------------------------------------------------------------------------------
+
+theorem pyIndex_some_mem (l : List Int) (i : Int)
+    (h : (0 ≤ i ∧ i < (l.length : Int)) ∨ (i < 0 ∧ -i ≤ (l.length : Int))) :
+    ∃ x, pyIndex l i = some x ∧ x ∈ l := by
+  unfold pyIndex
+  rcases h with ⟨h1, h2⟩ | ⟨h1, h2⟩
+  · have hlt : i.toNat < l.length := by omega
+    rw [if_pos (by omega), List.getElem?_eq_getElem hlt]
+    exact ⟨_, rfl, List.getElem_mem _⟩
+  · have hle : (-i).toNat ≤ l.length := by omega
+    have hlt : l.length - (-i).toNat < l.length := by omega
+    rw [if_neg (by omega), if_pos hle, List.getElem?_eq_getElem hlt]
+    exact ⟨_, rfl, List.getElem_mem _⟩
+
+theorem pyIndex_neg_one (l : List Int) (h : l ≠ []) : pyIndex l (-1) = l.getLast? := by
+  have hlen : 0 < l.length := List.length_pos_iff.mpr h
+  unfold pyIndex
+  rw [if_neg (by omega)]
+  have e : (-(-1 : Int)).toNat = 1 := by decide
+  rw [e, if_pos (by omega), List.getLast?_eq_getElem?]
+
+theorem pyIndex_ofNat_last (l : List Int) : pyIndex l (Int.ofNat (l.length - 1)) = l.getLast? := by
+  unfold pyIndex
+  rw [if_pos (by simp), List.getLast?_eq_getElem?]
+  rfl
+
+theorem lengthIndexes_small (m : Nat) (h : m + 1 ≤ 10) :
+    lengthIndexes (m + 1) = (List.range m).map (fun k => Int.ofNat (k + 1)) := by
+  unfold lengthIndexes
+  rw [if_neg (by omega), List.range_succ_eq_map]
+  simp [List.map_map, Function.comp_def]
+
+theorem go_all (l : List Int) (base : Int) (is : List Int)
+    (h : ∀ i ∈ is, ∃ x, pyIndex l i = some x ∧ Gen.NumDigits.numDigits x = base) :
+    tsLengthOf.go (P := P) l base is = Out.int base := by
+  induction is with
+  | nil => rfl
+  | cons i is ih =>
+    obtain ⟨x, hx, hd⟩ := h i (by simp)
+    rw [tsLengthOf.go]
+    simp only [hx, hd, ne_eq, not_true_eq_false, if_false]
+    exact ih (fun j hj => h j (by simp [hj]))
+
+theorem go_some (l : List Int) (base : Int) (is : List Int)
+    (hall : ∀ i ∈ is, ∃ x, pyIndex l i = some x)
+    (hex : ∃ i ∈ is, ∃ x, pyIndex l i = some x ∧ Gen.NumDigits.numDigits x ≠ base) :
+    tsLengthOf.go (P := P) l base is = Out.int (-1) := by
+  induction is with
+  | nil => obtain ⟨i, hi, _⟩ := hex; simp at hi
+  | cons i is ih =>
+    obtain ⟨x, hx⟩ := hall i (by simp)
+    rw [tsLengthOf.go]
+    simp only [hx]
+    by_cases hd : Gen.NumDigits.numDigits x = base
+    · simp only [hd, ne_eq, not_true_eq_false, if_false]
+      apply ih (fun j hj => hall j (by simp [hj]))
+      obtain ⟨j, hj, y, hy, hny⟩ := hex
+      rcases List.mem_cons.mp hj with e | e
+      · subst e
+        rw [hx] at hy
+        injection hy with hy
+        subst hy
+        exact absurd hd hny
+      · exact ⟨j, e, y, hy, hny⟩
+    · simp only [ne_eq, hd, not_false_eq_true, if_true]
+
+
+theorem lengthIndexes_mem (l : List Int) (i : Int) (hi : i ∈ lengthIndexes l.length) :
+    ∃ x, pyIndex l i = some x ∧ x ∈ l := by
+  apply pyIndex_some_mem
+  by_cases hlen : l.length > 10
+  · unfold lengthIndexes at hi
+    rw [if_pos hlen] at hi
+    simp only [List.mem_cons, List.not_mem_nil, or_false] at hi
+    omega
+  · cases hl : l.length with
+    | zero =>
+      rw [hl] at hi
+      simp [lengthIndexes] at hi
+    | succ m =>
+      rw [hl, lengthIndexes_small m (by omega)] at hi
+      obtain ⟨k, hk, e⟩ := List.mem_map.mp hi
+      rw [List.mem_range] at hk
+      subst e
+      left
+      simp only [Int.ofNat_eq_natCast]
+      omega
+
+theorem lengthIndexes_last (l : List Int) (hlen : 2 ≤ l.length) :
+    ∃ i ∈ lengthIndexes l.length, pyIndex l i = l.getLast? := by
+  have hne : l ≠ [] := by intro e; rw [e] at hlen; simp at hlen
+  by_cases h10 : l.length > 10
+  · refine ⟨-1, ?_, pyIndex_neg_one l hne⟩
+    unfold lengthIndexes
+    rw [if_pos h10]
+    simp
+  · refine ⟨Int.ofNat (l.length - 1), ?_, pyIndex_ofNat_last l⟩
+    obtain ⟨m, hm⟩ : ∃ m, l.length = m + 1 := ⟨l.length - 1, by omega⟩
+    rw [hm, lengthIndexes_small m (by omega)]
+    apply List.mem_map.mpr
+    refine ⟨m - 1, List.mem_range.mpr (by omega), ?_⟩
+    congr 1
+    omega
+
+theorem tsLengthOf_eq (l : List Int) (hs : l.Pairwise (· < ·)) (hpos : ∀ t ∈ l, 0 ≤ t) :
+    tsLengthOf (P := P) l = tsLengthSpec l := by
+  cases l with
+  | nil => rfl
+  | cons h t =>
+    have hunf : tsLengthOf (P := P) (h :: t) =
+        tsLengthOf.go (h :: t) (Gen.NumDigits.numDigits h) (lengthIndexes (h :: t).length) := rfl
+    rw [hunf]
+    simp only [tsLengthSpec]
+    have hh : ∀ x ∈ t, h < x := (List.pairwise_cons.mp hs).1
+    have h0 : 0 ≤ h := hpos h (by simp)
+    have hmono_h : ∀ x ∈ t, digitsRef h.natAbs ≤ digitsRef x.natAbs := by
+      intro x hx
+      apply digitsRef_mono
+      have := hh x hx
+      omega
+    by_cases hall : (t.all fun x => decide (digitsRef x.natAbs = digitsRef h.natAbs)) = true
+    · rw [if_pos hall, numDigits_spec']
+      apply go_all
+      intro i hi
+      obtain ⟨x, hx, hm⟩ := lengthIndexes_mem (h :: t) i hi
+      refine ⟨x, hx, ?_⟩
+      rw [numDigits_spec']
+      rcases List.mem_cons.mp hm with e | e
+      · rw [e]
+      · rw [List.all_eq_true] at hall
+        have := hall x e
+        simp only [decide_eq_true_eq] at this
+        rw [this]
+    · rw [if_neg hall]
+      have hex : ∃ y ∈ t, digitsRef y.natAbs ≠ digitsRef h.natAbs := by
+        apply Classical.byContradiction
+        intro hc
+        apply hall
+        rw [List.all_eq_true]
+        intro x hx
+        simp only [decide_eq_true_eq]
+        apply Classical.byContradiction
+        intro hne
+        exact hc ⟨x, hx, hne⟩
+      obtain ⟨y, hy, hny⟩ := hex
+      have hlen : 2 ≤ (h :: t).length := by
+        cases t with
+        | nil => simp at hy
+        | cons _ _ => simp
+      obtain ⟨i, hi, hpi⟩ := lengthIndexes_last (h :: t) hlen
+      have hne : (h :: t) ≠ [] := by simp
+      rw [List.getLast?_eq_some_getLast hne] at hpi
+      have hlast := sorted_le_last (h :: t) _ hs (List.getLast?_eq_some_getLast hne) y (by simp [hy])
+      have hylast : digitsRef y.natAbs ≤ digitsRef ((h :: t).getLast hne).natAbs := by
+        apply digitsRef_mono
+        have := hpos y (by simp [hy])
+        omega
+      have := hmono_h y hy
+      apply go_some
+      · intro j hj
+        obtain ⟨x, hx, _⟩ := lengthIndexes_mem (h :: t) j hj
+        exact ⟨x, hx⟩
+      · refine ⟨i, hi, _, hpi, ?_⟩
+        rw [numDigits_spec', numDigits_spec']
+        omega
+
+theorem tsLength_spec' (s : State P) (l : List Int) (h : Inv s) (hl : SortedKeys (abs s) l) (hpos : ∀ t ∈ l, 0 ≤ t) :
+    (step s Op.tsLength).2 = tsLengthSpec l := by
+  simp only [step]
+  rw [refresh_cache_eq s l h hl]
+  exact tsLengthOf_eq l hl.1 hpos
+
+
+-- history independence ------------------------------------------------------------------------------------------------
+
+theorem delPair_unique (a a1 a2 : Abs P) (ts : Int) (dev : String)
+    (h1 : Abs.DelPair a a1 ts dev) (h2 : Abs.DelPair a a2 ts dev) : a1 = a2 := by
+  apply Abs.ext'
+  · intro t
+    by_cases e : t = ts
+    · subst e
+      rw [Bool.eq_iff_iff, h1.2.2, h2.2.2]
+    · rw [h1.2.1 t e, h2.2.1 t e]
+  · intro t d
+    rw [h1.1, h2.1]
+
+theorem hasTs_spec' (s : State P) (ts : Int) :
+    (step s (Op.hasTs ts)).2 = Out.bool ((abs s).present ts) := rfl
+
+theorem same_content_same_answers' (s₁ s₂ : State P) (op : Op P) (h₁ : Inv s₁) (h₂ : Inv s₂) (e : abs s₁ = abs s₂) :
+    abs (step s₁ op).1 = abs (step s₂ op).1 ∧
+      (isOrderFreeQuery op = true ∨ isQuery op = false → (step s₁ op).2 = (step s₂ op).2) := by
+  have hl₂ := sortedKeys_isort s₂ h₂
+  have hl₁ : SortedKeys (abs s₁) (isort (Dict.keys s₂.data)) := by rw [e]; exact hl₂
+  cases op with
+  | setPair ts dev p =>
+    have r1 := setPair_refines' s₁ ts dev p
+    have r2 := setPair_refines' s₂ ts dev p
+    exact ⟨by rw [r1.1, r2.1, e], fun _ => by rw [r1.2, r2.2]⟩
+  | setTs ts inner =>
+    have r1 := setTs_refines' s₁ ts inner
+    have r2 := setTs_refines' s₂ ts inner
+    exact ⟨by rw [r1.1, r2.1, e], fun _ => by rw [r1.2, r2.2]⟩
+  | delTs ts =>
+    have r1 := delTs_refines' s₁ ts h₁
+    have r2 := delTs_refines' s₂ ts h₂
+    rw [e] at r1
+    by_cases hp : (abs s₂).present ts = true
+    · rw [if_pos hp] at r1 r2
+      exact ⟨by rw [r1.1, r2.1], fun _ => by rw [r1.2, r2.2]⟩
+    · rw [if_neg hp] at r1 r2
+      rw [r1, r2]
+      exact ⟨e, fun _ => rfl⟩
+  | delPair ts dev =>
+    have r1 := delPair_refines' s₁ ts dev h₁
+    have r2 := delPair_refines' s₂ ts dev h₂
+    rw [e] at r1
+    by_cases hp : ((abs s₂).entry ts dev).isSome = true
+    · rw [if_pos hp] at r1 r2
+      exact ⟨delPair_unique _ _ _ _ _ r1.1 r2.1, fun _ => by rw [r1.2, r2.2]⟩
+    · rw [if_neg hp] at r1 r2
+      rw [r1, r2]
+      exact ⟨e, fun _ => rfl⟩
+  | hasPair ts dev =>
+    refine ⟨by rw [query_keeps_content' s₁ _ rfl, query_keeps_content' s₂ _ rfl, e], fun _ => ?_⟩
+    rw [hasPair_spec', hasPair_spec', e]
+  | hasTs ts =>
+    refine ⟨by rw [query_keeps_content' s₁ _ rfl, query_keeps_content' s₂ _ rfl, e], fun _ => ?_⟩
+    rw [hasTs_spec', hasTs_spec', e]
+  | getPair ts dev =>
+    refine ⟨by rw [query_keeps_content' s₁ _ rfl, query_keeps_content' s₂ _ rfl, e], fun _ => ?_⟩
+    rw [getPair_spec', getPair_spec', e]
+  | sortedList =>
+    refine ⟨by rw [query_keeps_content' s₁ _ rfl, query_keeps_content' s₂ _ rfl, e], fun _ => ?_⟩
+    simp only [step]
+    rw [refresh_cache_eq s₁ _ h₁ hl₁, refresh_cache_eq s₂ _ h₂ hl₂]
+  | tsLength =>
+    refine ⟨by rw [query_keeps_content' s₁ _ rfl, query_keeps_content' s₂ _ rfl, e], fun _ => ?_⟩
+    simp only [step]
+    rw [refresh_cache_eq s₁ _ h₁ hl₁, refresh_cache_eq s₂ _ h₂ hl₂]
+  | keyPairs =>
+    refine ⟨by rw [query_keeps_content' s₁ _ rfl, query_keeps_content' s₂ _ rfl, e], fun hc => ?_⟩
+    simp [isOrderFreeQuery, isQuery] at hc
+  | interp ts dev maxI =>
+    refine ⟨by rw [query_keeps_content' s₁ _ rfl, query_keeps_content' s₂ _ rfl, e], fun _ => ?_⟩
+    rw [interp_spec' s₁ ts dev maxI _ h₁ hl₁, interp_spec' s₂ ts dev maxI _ h₂ hl₂, e]
+
+theorem run_same_outputs (s₁ s₂ : State P) (cont : List (Op P)) (h₁ : Inv s₁) (h₂ : Inv s₂) (e : abs s₁ = abs s₂)
+    (hc : ∀ op ∈ cont, isOrderFreeQuery op = true ∨ isQuery op = false) :
+    (run s₁ cont).2 = (run s₂ cont).2 := by
+  induction cont generalizing s₁ s₂ with
+  | nil => rfl
+  | cons op ops ih =>
+    simp only [run]
+    obtain ⟨ea, eo⟩ := same_content_same_answers' s₁ s₂ op h₁ h₂ e
+    rw [eo (hc op (by simp)),
+      ih _ _ (inv_step' s₁ op h₁) (inv_step' s₂ op h₂) ea (fun o ho => hc o (by simp [ho]))]
+
 
 end Kapture.C07
